@@ -148,16 +148,17 @@ CLAIMED = {
 }
 
 CLAIMED["C16"] = dict(
-    technique="CrossHair symbolic strings through rdflib's SPARQL-JSON result mapping (term classes replaced by recorders, json.dumps/loads by a structural copy)",
-    text="Partial claim: only the mapping between result tables and SPARQL-JSON objects. termToJSON / parseJsonTerm for one term of each kind "
-         "whose lexical form, language tag and datatype IRI are symbolic strings (an empty, i.e. falsy, content included): the object uses the "
-         "SPARQL-JSON vocabulary and reads back as the same term; JSONResultSerializer.serialize -> JSONResult for 6 table shapes over two "
-         "variables (bound/unbound cells, all-unbound rows, no rows) with symbolic cell contents: same variables in order, same row sequence, "
-         "each cell bound to an equal term or unbound; both ASK answers. JSON text (json/orjson), SPARQL XML, CSV and TSV are NOT covered "
-         "(C codecs / a pyparsing grammar over term contents that cannot be symbolic).",
-    note="Trusted base: CrossHair 0.0.110's model of Python str/dict, z3, the recorder classes standing for URIRef/Literal/BNode inside the "
-         "jsonresults module (a term with empty text is falsy, as rdflib's str-based terms are), the structural JSON copy. The claim says nothing "
-         "about the text level of any format.",
+    technique="CrossHair symbolic strings through rdflib's SPARQL-JSON and SPARQL-XML result mappings (term classes replaced by recorders, json.dumps/loads by a structural copy, XMLGenerator/ElementTree by a recorded element tree)",
+    text="Partial claim: only the mappings between result tables and the two structured formats, not their text. JSON: termToJSON / parseJsonTerm for one "
+         "term of each kind whose lexical form, language tag and datatype IRI are symbolic strings (an empty, i.e. falsy, content included): the object uses "
+         "the SPARQL-JSON vocabulary and reads back as the same term; JSONResultSerializer.serialize -> JSONResult for 6 table shapes over two variables "
+         "(bound/unbound cells, all-unbound rows, no rows) with symbolic cell contents: same variables in order, same row sequence, each cell bound to an "
+         "equal term or unbound; both ASK answers. XML: the same tables and ASK answers through XMLResultSerializer / SPARQLXMLWriter -> recorded element "
+         "structure -> XMLResult / parseTerm. The text level (json/orjson, XMLGenerator escaping, expat/lxml), CSV and TSV are NOT covered (C codecs / a "
+         "pyparsing grammar over term contents that cannot be symbolic).",
+    note="Trusted base: CrossHair 0.0.110's model of Python str/dict, z3, the recorder classes standing for URIRef/Literal/BNode inside the result "
+         "modules (a term with empty text is falsy, as rdflib's str-based terms are), the structural JSON copy, the recorded XML tree with ElementTree's "
+         "conventions (text None for no character data, attribute values as strings). The claim says nothing about the text level of any format.",
     ref="DESIGN.md section 3 C16")
 
 NA = {
